@@ -12,10 +12,11 @@ cp $SRC/tests/seeded_demo.rs $W/tests/seeded_demo_$ID.rs
 cd $W
 if ! git apply --check $SRC/patch.diff 2>/dev/null; then echo "PATCH DOES NOT APPLY"; git -C /repo worktree remove --force $W; exit 2; fi
 git apply $SRC/patch.diff
-export CARGO_NET_OFFLINE=true
+export CARGO_NET_OFFLINE=true SUITE_FLAGS
 demo_with=$(cargo test --offline --test seeded_demo_$ID 2>&1 | grep -E "^test result|error(\[|:)|signal|SIG" | head -3 | tr '\n' ' ')
 mv tests/seeded_demo_$ID.rs /tmp/vs/demo_$ID.rs
-suite=$(cargo test --workspace --no-fail-fast --offline 2>&1 | grep -E "^test result" | awk '{p+=$4; f+=$6} END {print "passed",p,"failed",f}')
+# SUITE_FLAGS="--lib --bins --tests" restricts the run to the pinned 384 tests (no doc tests) when the machine is busy
+suite=$(cargo test --workspace --no-fail-fast --offline ${SUITE_FLAGS:-} 2>&1 | grep -E "^test result" | awk '{p+=$4; f+=$6} END {print "passed",p,"failed",f}')
 mv /tmp/vs/demo_$ID.rs tests/seeded_demo_$ID.rs
 git apply -R $SRC/patch.diff
 demo_without=$(cargo test --offline --test seeded_demo_$ID 2>&1 | grep -E "^test result|error(\[|:)" | head -3 | tr '\n' ' ')
@@ -27,11 +28,11 @@ cp $SRC/patch.diff /verif/seeded/$ID/patch.diff
 cp $SRC/tests/seeded_demo.rs /verif/seeded/$ID/seeded_demo.rs
 cp $SRC/meta.txt /verif/seeded/$ID/agent_meta.txt 2>/dev/null
 python3 - "$ID" "$PROP" "$suite" "$demo_with" "$demo_without" <<'PY'
-import json,sys
+import json,sys,os
 i,p,s,w,wo=sys.argv[1:6]
 m={"seed_id":i,"property":p,"needs_to_manifest":open(f"/verif/seeded/{i}/agent_meta.txt").read() if True else "",
    "confirmed":{"existing_suite_with_change":s,"demo_with_change":w,"demo_without_change":wo,
-   "how":"fresh worktree of /repo HEAD under /tmp/vs; git apply patch.diff; cargo test --workspace --no-fail-fast --offline (demo moved aside); cargo test --test seeded_demo with and without the patch"}}
+   "how":"fresh worktree of /repo HEAD under /tmp/vs; git apply patch.diff; cargo test --workspace --no-fail-fast --offline "+os.environ.get("SUITE_FLAGS","")+" (demo moved aside); cargo test --test seeded_demo with and without the patch"}}
 json.dump(m,open(f"/verif/seeded/{i}/meta.json","w"),indent=1)
 PY
 cd /; git -C /repo worktree remove --force $W; rm -rf $W
